@@ -47,19 +47,19 @@ def sb(c):
     return bool(c) if isinstance(c, Sym) else c
 
 
-def h_select(ctx, dtype, m, n_best, nan_idx, sym_thresh):
+def h_select(ctx, dtype, m, n_best, nan_idx, sym_thresh, n_rows=6):
     try:
-        return _h_select(ctx, dtype, m, n_best, nan_idx, sym_thresh)
+        return _h_select(ctx, dtype, m, n_best, nan_idx, sym_thresh, n_rows)
     except Violation as v:
         v.extra = dict(v.extra or {}, dtype=dtype)
         raise
 
 
-def _h_select(ctx, dtype, m, n_best, nan_idx, sym_thresh):
+def _h_select(ctx, dtype, m, n_best, nan_idx, sym_thresh, n_rows=6):
     from AutoCarver.selectors import ClassificationSelector
 
     feats = [f"f{i}" for i in range(m)]
-    n = 6
+    n = n_rows  # 5 rows = as many rows as measurements per feature (dtype, pct_nan, pct_mode, mode, measure)
     meas = {}
     for i, f in enumerate(feats):
         if i in nan_idx:
@@ -85,7 +85,7 @@ def _h_select(ctx, dtype, m, n_best, nan_idx, sym_thresh):
         ctx.assume(th <= 1)
     else:
         th = 0.5
-    y = pd.Series([0, 1, 0, 1, 1, 0])
+    y = pd.Series([0, 1, 0, 1, 1, 0, 1][:n])
     if dtype == "float":
         data = {f: [float((k + 2 * i) % 5 + 0.5 * i) for k in range(n)] for i, f in enumerate(feats)}
         X = SymFrame(data)
@@ -191,6 +191,9 @@ def obligation_select(tier):
                 for nan_idx in [()] + [(i,) for i in range(m)] if m <= 3 else [(), (0,), (m - 1,)]:
                     for sym_thresh in ((True,) if m >= 3 else (True, False)):
                         jobs.append(dict(dtype=dtype, m=m, n_best=n_best, nan_idx=nan_idx, sym_thresh=sym_thresh))
+                    if m == 2 and nan_idx == ():
+                        for n_rows in (5, 7):
+                            jobs.append(dict(dtype=dtype, m=m, n_best=n_best, nan_idx=nan_idx, sym_thresh=True, n_rows=n_rows))
     return Obligation(
         name="O14.1-3 select: distinct features, ordered by decreasing measure, <= n_best, pairwise association <= thresh_corr, nothing left out without one of the allowed reasons (symbolic measures, correlations and threshold)",
         harness=h_select, jobs=jobs,
@@ -313,6 +316,22 @@ def multi_measure_api_check():
     return findings
 
 
+def multi_measure_correlated_api():
+    """API-level, real statistics: two measures that rank two correlated features differently."""
+    from AutoCarver.selectors import ClassificationSelector, R_measure, kruskal_measure
+
+    rng = np.random.default_rng(5)
+    n = 40
+    y = pd.Series(rng.integers(0, 2, n))
+    a = y * 1.0 + rng.normal(size=n) * 1.0
+    b = a + rng.normal(size=n) * 0.6
+    b[rng.integers(0, n)] += 8 * (1 if rng.random() < .5 else -1)
+    X = pd.DataFrame({"a": a, "b": b})
+    rho = abs(X.corr("spearman").iloc[0, 1])
+    out = ClassificationSelector(n_best=1, quantitative_features=["a", "b"], quantitative_measures=[kruskal_measure, R_measure], thresh_corr=0.6).select(X, y)
+    return (len(out) == 2 and rho > 0.6), dict(selected=out, abs_spearman=round(float(rho), 4), thresh_corr=0.6, n_best=1)
+
+
 def post_multi(tier):
     res = dict(name="O14.6 lists of several association measures: every listed measure is evaluated and features are returned (API-level, concrete)",
                ok=False, states=0, queries=0, solver_s=0.0, twin=0, violations=[], errors=[], samples=[])
@@ -328,6 +347,17 @@ def post_multi(tier):
         kind = "C14.measure-list-selects-nothing" if f["outcome"] == "nothing selected" else "C14.measure-list-crashes"
         res["violations"].append(dict(ob=res["name"], kind=kind, reproduced=True, message=f"qualitative_measures={f['measures']}: {f['outcome']} {('(thresh_chi2=%s)' % f['thresh_chi2']) if 'thresh_chi2' in f else ''}",
                                       model=f, raw_model={k: repr(v) for k, v in f.items()}, job=dict(obligation="O14.6"), extra=dict(first_measure=f["measures"][0])))
+    try:
+        bad, detail = multi_measure_correlated_api()
+        res["states"] += 1
+        res["twin"] += 1
+        res["samples"].append(detail)
+        if bad:
+            res["violations"].append(dict(ob=res["name"], kind="C14.correlated-features-returned", reproduced=True,
+                                          message=f"real data, two measures: {detail}", model=detail, raw_model={k: repr(v) for k, v in detail.items()},
+                                          job=dict(obligation="O14.6"), extra=dict(measures=2)))
+    except Exception as e:
+        res["errors"].append(f"{type(e).__name__}: {e}")
     res["ok"] = not res["violations"] and not res["errors"]
     return res
 
@@ -513,3 +543,99 @@ def obligations_c15(tier):
                    harness=h_metamorphic, jobs=meta, encodes=["ClassificationSelector", "RegressionSelector", "kruskal_measure", "tschuprowt_measure", "spearman_filter", "tschuprowt_filter"],
                    bounds="80-row samples from 2-4 seeds; 5 quantitative (one correlated pair) and 3 qualitative features; transformation, feature and factor solver-chosen", twin=False, budget_s=8.0),
     ]
+
+
+# ----------------------------------------------------------------------------- several association measures
+def h_select_multi(ctx, dtype, m, n_best):
+    """Two association measures (symbolic values per feature and measure): 'at most n_best per association
+    measure'; the result is the union of the per-measure selections, ordered by the last measure."""
+    from AutoCarver.selectors import ClassificationSelector
+
+    feats = [f"f{i}" for i in range(m)]
+    n = 6
+    m1 = {f: ctx.real(f"a{i}") for i, f in enumerate(feats)}
+    m2 = {f: ctx.real(f"b{i}") for i, f in enumerate(feats)}
+    for v in list(m1.values()) + list(m2.values()):
+        ctx.assume(v >= 0)
+    corr = {}
+    C = [[1.0] * m for _ in range(m)]
+    for i, j in itertools.combinations(range(m), 2):
+        v = ctx.real(f"r{i}{j}")
+        ctx.assume(v >= 0)
+        ctx.assume(v <= 1)
+        C[i][j] = C[j][i] = v
+        corr[(i, j)] = corr[(j, i)] = v
+    th = ctx.real("thresh_corr")
+    ctx.assume(th >= 0)
+    ctx.assume(th <= 1)
+    y = pd.Series([0, 1, 0, 1, 1, 0])
+    s1, s2 = make_stub_measure(m1, "first_measure"), make_stub_measure(m2, "second_measure")
+    if dtype == "float":
+        X = SymFrame({f: [float((k + 2 * i) % 5 + 0.5 * i) for k in range(n)] for i, f in enumerate(feats)})
+        X._symcorr = pd.DataFrame(C, index=feats, columns=feats, dtype=object)
+        sel = ClassificationSelector(n_best=n_best, quantitative_features=list(feats), quantitative_measures=[s1, s2], thresh_corr=th)
+        extra = []
+    else:
+        X = pd.DataFrame({f: [str((k + i) % 3 + (1 if (i >= 3 and k == 0) else 0)) for k in range(n)] for i, f in enumerate(feats)})
+
+        def pair_measure(x, y_, **kwargs):
+            return True, {"tschuprowt_measure": corr[(feats.index(x.name), feats.index(y_.name))]}
+        pair_measure.__name__ = "tschuprowt_measure"
+        sel = ClassificationSelector(n_best=n_best, qualitative_features=list(feats), qualitative_measures=[s1, s2], thresh_corr=th)
+        extra = [("AutoCarver.selectors.filters.qualitative_filters", "tschuprowt_measure", pair_measure)]
+    with rebound(ctx, [], extra=extra) if not getattr(ctx, "concrete", False) else _plain(extra):
+        try:
+            out = sel.select(X, y)
+        except Violation:
+            raise
+        except Exception as e:
+            import traceback
+            ctx.require(False, "C14.select-internal-error", f"select with two measures raised {type(e).__name__}: {str(e)[:150]} | {traceback.format_exc(limit=-3)[-400:]}")
+    idx = {f: i for i, f in enumerate(feats)}
+    ctx.require(len(out) == len(set(out)) and all(f in feats for f in out), "C14.not-distinct-input-features", f"select returned {out}")
+    ctx.require(len(out) <= 2 * n_best, "C14.more-than-n-best", f"{len(out)} features returned for 2 measures, n_best={n_best}")
+
+    # reference: greedy filter per measure on the ranking by that measure, first n_best, union
+    def ranking(meas):
+        order = []
+        for f in feats:
+            pos = 0
+            while pos < len(order) and sb(meas[order[pos]] > meas[f]):
+                pos += 1
+            # ties: remember that the order is ambiguous
+            if pos < len(order) and sb(eqv(meas[order[pos]], meas[f])):
+                return None
+            order.insert(pos, f)
+        return order
+
+    def greedy(order):
+        kept = []
+        for f in order:
+            if all(not sb(corr[(idx[f], idx[g])] > th) for g in kept):
+                kept.append(f)
+        return kept[:n_best]
+
+    r1, r2 = ranking(m1), ranking(m2)
+    if r1 is not None and r2 is not None:
+        exp = set(greedy(r1)) | set(greedy(r2))
+        ctx.require(set(out) == exp, "C14.not-union-of-per-measure-selections", f"select returned {out}; per-measure greedy selections give {sorted(exp)} (rankings {r1} / {r2})")
+        for a, b in zip(out, out[1:]):
+            ctx.require(sb(m2[a] >= m2[b]), "C14.not-ordered-by-association", f"{a} returned before {b} although it is less associated by the last measure")
+    # the property statement itself: no two returned features associated above thresh_corr
+    for a, b in itertools.combinations(out, 2):
+        c = corr[(idx[a], idx[b])] > th
+        ctx.require(~c if isinstance(c, Sym) else not c, "C14.correlated-features-returned", f"{a} and {b} are both returned (selected through different measures) although their association exceeds thresh_corr",
+                    dict(measures=2))
+    return dict(counters={"ok": 1}, sample=dict(dtype=dtype, m=m, n_best=n_best, out=out), result=dict(out=list(out)),
+                twin_distinct=[k for k in getattr(ctx, "symbols", {}) if k[0] in "ab" and k[1:].isdigit()])
+
+
+def obligation_select_multi(tier):
+    quick = tier == "quick"
+    jobs = [dict(dtype=d, m=m, n_best=nb) for d in ("float", "str") for m in ([2] if quick else [2, 3]) for nb in range(1, m + 1)]
+    return Obligation(
+        name="O14.7 two association measures: result = union of the per-measure greedy selections (<= n_best each), ordered by the last measure; pairwise association of returned features <= thresh_corr",
+        harness=h_select_multi, jobs=jobs, encodes=["BaseSelector._select_features (per-measure loop, union)", "base_selector.evaluated_measure_names", "base_measures.make_measure"],
+        rebindings=["R6 two user-supplied measures returning symbolic values", "R9 symbolic correlation matrix"],
+        bounds=f"m <= {2 if quick else 3} features, n_best 1..m, symbolic measures, correlations and thresh_corr", twin_every=5, budget_s=5.0,
+    )
